@@ -343,6 +343,7 @@ func cases(_ bool) []Case {
 func TestCheck(t *testing.T) {
 	r := mc.New(t, "C14")
 	defer r.Finish()
+	r.CrashFails = true
 	ns := []int{1, 4, 8}
 	if r.Thorough() {
 		ns = []int{1, 2, 4, 8, 16, 32}
